@@ -1,2 +1,62 @@
-import SyneTune.Model.Tuner
-/- placeholder: theorems follow -/
+import SyneTune.Lemmas.TunerC12
+/-
+C12 — tuning terminates on the stopping criterion and leaves nothing running.
+Property theorems only.  Model: `Model/Tuner.lean`, `Model/StoppingCriterion.lean`,
+`Model/TuningStatus.lean`; helper lemmas: `Lemmas/TunerC12.lean`, `Lemmas/TunerStruct.lean`.
+
+`run (init c) as` is the state of `Tuner.run()` after the environment answers `as` (any poll
+outcomes, decisions, suggestions, clock readings, and `raise` at ANY call, in the loop or in the
+`finally` block).
+-/
+namespace SyneTune.C12
+open SyneTune SyneTune.Tuner
+
+/-- **The stopping condition** is `stop_criterion(status) or num_failed > max_failures`,
+evaluated on the status as it is at the end of the iteration (criterion without a wall-clock
+part; `exit_criterion_clock` is the variant that first reads the clock). -/
+theorem exit_criterion (s : LState) (a : Ans) (hp : s.pc = .evalStop) (hw : s.cfg.crit.maxWallclock = none) :
+    (step s a).pc = .loopHead ∧
+    (step s a).stopReached =
+      (s.cfg.crit.eval s.status 0 s.cfg.keyCost || decide (s.cfg.maxFailures < s.status.numFailed)) := by
+  rw [step_eq]
+  simp only [next, hp, hw, Option.isSome_none, Bool.false_eq_true, if_false, Pc.silent, Bool.true_or, if_true]
+  exact ⟨rfl, rfl⟩
+
+theorem exit_criterion_clock (s : LState) (t : Rat) (hp : s.pc = .clock) :
+    (step s (.clock t)).pc = .loopHead ∧
+    (step s (.clock t)).stopReached =
+      (s.cfg.crit.eval s.status t s.cfg.keyCost || decide (s.cfg.maxFailures < s.status.numFailed)) := by
+  rw [step_eq]
+  simp only [next, hp, Pc.silent, Bool.true_or, if_true]
+  exact ⟨rfl, rfl⟩
+
+/-- **The `while` test**: after the stopping condition has been evaluated the loop goes on iff
+the condition is false, or trials are still running and `wait_trial_completion_when_stopping`
+is set; otherwise the `finally` block starts. -/
+theorem exit_test (s : LState) (a : Ans) (hp : s.pc = .loopHead) :
+    (step s a).pc = if (!s.stopReached || (s.cfg.wait && !s.running.isEmpty)) then .loopStart else .finTuningEnd := by
+  rw [step_pc]
+  simp only [next, hp]
+  split <;> rfl
+
+/-- **The `break`**: when the search space is exhausted, or the stopping condition holds and the
+loop only waits for running trials, the loop is left as soon as no trial is running any more. -/
+theorem exit_break (s : LState) (a : Ans) (hp : s.pc = .afterUpd) :
+    (step s a).pc =
+      if s.exhausted || (s.cfg.wait && s.stopReached) then
+        (if !(s.running.filter (fun t => !hasKey t s.done)).isEmpty then .sleepWait else .finTuningEnd)
+      else .schedNew := by
+  rw [step_pc]
+  simp only [next, hp, afterUpdate]
+
+/-- **The loop is left only there**: a step from inside the loop into the `finally` block is
+the `while` test with the stopping condition true, the `break`, or an exception. -/
+theorem exit_only (c : Cfg) (as : List Ans) (a : Ans) (hf : finPc (run (init c) as).pc = false)
+    (hf' : finPc (step (run (init c) as) a).pc = true) :
+    ((run (init c) as).pc = .loopHead ∧ (run (init c) as).stopReached = true) ∨
+    ((run (init c) as).pc = .afterUpd ∧
+      ((run (init c) as).exhausted = true ∨ ((run (init c) as).cfg.wait = true ∧ (run (init c) as).stopReached = true))) ∨
+    (step (run (init c) as) a).err.isSome = true := by
+  sorry
+
+end SyneTune.C12
